@@ -302,6 +302,7 @@ def run(ctx):
     # ---- D11: a CPUID leaf is queried only where the CPU is known to implement it ------------------------
     d11_cpuid_leaf_guard(db, rep)
     d12_orcc_target_honoured(db, rep)
+    d13_xcr0_all_state_bits(db, rep)
 
     # ---- D3 executability ---------------------------------------------------
     want_exec = {"sse": ("orcprogram-sse", "sse_is_executable", ["ORC_TARGET_SSE_SSE2"]),
@@ -576,3 +577,57 @@ def d12_orcc_target_honoured(db, rep, rule="D12-ORCC-TARGET-HONOURED"):
     if n < 2:
         raise AnalysisBroken("only %d places where orcc prints a default-target compile call" % n)
     return n
+
+
+def d13_xcr0_all_state_bits(db, rep, rule="D13-XCR0-ALL-BITS"):
+    """The AVX flags stand for "the OS saves and restores the YMM state": XCR0 bit 2 (YMM) AND bit 1 (SSE) - Intel SDM vol. 1
+    14.3.  D2-AVX-OS takes a call of check_xcr0_ymm() for that fact, so the function has to establish it: every value it
+    returns must be a comparison `(xcr0 & M) == M` with M containing bits 1 and 2 (or a conjunction of single-bit tests).  A
+    plain `xcr0 & M` is true when ANY bit of M is set - on a kernel that enables SSE state only (clearcpuid=avx, some
+    hypervisors) AVX code would be selected and fault with #UD."""
+    tu = db.tu("orccpu-x86")
+    f = tu.fn.get("check_xcr0_ymm")
+    if f is None or f.body is None:
+        raise AnalysisBroken("check_xcr0_ymm not found")
+    rep.saw(f)
+    rets = [r for r in f.walk() if r.k == "ReturnStmt" and r.c and r.c[0] is not None]
+    if not rets:
+        raise AnalysisBroken("check_xcr0_ymm has no return value")
+
+    def unwrap(e):
+        e = strip_casts(e)
+        while e is not None and e.k == "ParenExpr":
+            e = strip_casts(e.c[0])
+        return e
+
+    def establishes(e):
+        """set of XCR0 bits known to be 1 when e is true"""
+        e = unwrap(e)
+        if e is None:
+            return set()
+        if e.k == "BinaryOperator" and e.op == "&&":
+            return establishes(e.c[0]) | establishes(e.c[1])
+        if e.k == "BinaryOperator" and e.op == "!=" and unwrap(e.c[1]) is not None and unwrap(e.c[1]).v == 0:
+            return establishes(e.c[0])
+        if e.k == "BinaryOperator" and e.op == "==":
+            l, r = unwrap(e.c[0]), unwrap(e.c[1])
+            if l is not None and l.k == "BinaryOperator" and l.op == "&" and unwrap(l.c[1]) is not None and unwrap(l.c[1]).v is not None and r is not None and r.v == unwrap(l.c[1]).v:
+                return {b for b in range(32) if r.v >> b & 1}
+            return set()
+        if e.k == "BinaryOperator" and e.op == "&":
+            m = unwrap(e.c[1]).v if unwrap(e.c[1]) is not None else None
+            if m is not None and bin(m).count("1") == 1:
+                return {b for b in range(32) if m >> b & 1}
+            return set()
+        if e.k == "DeclRefExpr" and e.get("dk") == "local":
+            from flow import single_defs
+            d = single_defs(f).get(e.name)
+            return establishes(d) if d is not None else set()
+        return set()
+    for r in rets:
+        got = establishes(r.c[0])
+        rep.check({1, 2} <= got, rule, where(f), "check_xcr0_ymm@%s" % r.line, "a true result means XCR0 has the SSE and the YMM state bit set",
+                  "check_xcr0_ymm returns `%s` (line %s), which establishes only XCR0 bits %s: the AVX flags (and with them the avx target and the AVX rule "
+                  "sets of sse) are switched on although the OS may not save the YMM state - an any-bit test of a two-bit mask is true for SSE state alone" %
+                  (unparse(r.c[0])[:80], r.line, sorted(got)), line=r.line)
+    return len(rets)
